@@ -52,6 +52,7 @@ def lookup(I, o, name):
         f = {"strip": lambda i, o_, a, kw: T.strip(o_),
              "split": lambda i, o_, a, kw: T.split(i, o_, kw.get("maxsplit", a[1] if len(a) > 1 else -1)) if (not a or a[0] is None) else (_ for _ in ()).throw(Unsupported("split(sep) on a structured string")),
              "startswith": lambda i, o_, a, kw: i.wrap_bool(T.starts_with(i, o_, a[0])),
+             "isspace": lambda i, o_, a, kw: T.isspace(i, o_),
              "splitlines": lambda i, o_, a, kw: ListV([T.strip(x) if False else x for x in T.lines(o_)])}.get(name)
     elif isinstance(o, slice):
         if name == "indices":
